@@ -67,7 +67,7 @@ func (S) Info() scen.Info {
 			"goroutine scheduling": "stub: seeded one-at-a-time scheduler; yields between operations, between stream pieces and at every fs call",
 			"reference model":      "write-once map (direct interval rule + porcupine v1.3.0 nondeterministic model, partitioned by key)",
 		},
-		QuickUnits: 30000, ThoroughUnits: 3000000, QuickSecs: 240, ThoroughSecs: 1200,
+		QuickUnits: 60000, ThoroughUnits: 3000000, QuickSecs: 240, ThoroughSecs: 1200,
 		ProbeKeys: []string{"probe.fallback_putstream", "probe.fallback_getstream", "probe.fallback_peek", "probe.fallback_putvec", "probe.buffer_scribbled", "probe.key_with_nul", "probe.key_with_slash", "probe.key_dotdot", "probe.key_empty", "probe.concurrent_put_read", "probe.failed_put", "probe.porcupine_checked", "probe.empty_content"},
 		EventsKey: "events",
 	}
